@@ -162,6 +162,17 @@ def body(c, ctx):
         Jij_abs = float(np.abs(Functional(form0abs).assemble(ub, **kw)))
         if not abs(A[i, j] - Jij) <= tol * (Jij_abs + abs(Jij) + 1e-300):
             ctx.fail('entry_pick', f'A[{i},{j}] = {A[i, j]!r}, a(phi_{j}, phi_{i}) = {Jij!r} (rows test, columns trial) | {detail}', **sig)
+    # integrands that hand one of their inputs straight back (w['g'], w.h): the inputs stay what they were, a second evaluation agrees
+    from skfem.element import DiscreteField as _DF
+    g = _DF(np.array(np.real(farr), dtype=np.float64, copy=True))
+    g0 = np.array(g, copy=True)
+    s1 = Functional(lambda w: w['g']).assemble(ub, g=g)
+    s2 = Functional(lambda w: w['g']).assemble(ub, g=g)
+    h1 = Functional(lambda w: w.h).assemble(ub)
+    h2 = Functional(lambda w: w.h).assemble(ub)
+    if not np.array_equal(np.asarray(g), g0) or s1 != s2 or h1 != h2:
+        ctx.fail('inputs_changed_by_assembly', f'a Functional returning its input: field changed by {np.abs(np.asarray(g) - g0).max():.3e}, '
+                 f'two evaluations {s1!r} / {s2!r}, of w.h {h1!r} / {h2!r} | {lab}', **sig)
     # parameter passing modes are interchangeable (bit for bit)
     if gi.uses(tree, 'param') and fm != 'scalar':
         mats = {mode: BilinearForm(form2, dtype=dtype).assemble(ub, vb, **fkw(mode)).toarray() for mode in ('vector', 'field', 'array')}
